@@ -9,6 +9,9 @@
 (* High -> system, Normal -> main, log messages -> log; a plain send uses the*)
 (* sender's current send priority, which only SetSendPriority changes        *)
 (* (SendWithPriority is temporary, also when it fails).                      *)
+(* In every third history the receiver is parked a second time, inside the   *)
+(* handler of its first log message, while a second phase of operations      *)
+(* arrives: log messages are the lowest class and are handled one at a time. *)
 (* After the release the receiver must handle exactly the operations that    *)
 (* reported success, class by class (urgent, system, main, log), in issue    *)
 (* order within a class.                                                     *)
@@ -21,11 +24,21 @@ VARIABLES l, bad
 Classes == <<"urgent", "system", "main", "log">>
 OfClass(ops, c) == SelectSeq(ops, LAMBDA o : o.cls = c /\ o.ok)
 Ids(ops) == [i \in 1..Len(ops) |-> ops[i].id]
-Expected(ops) == Ids(OfClass(ops, "urgent")) \o Ids(OfClass(ops, "system")) \o Ids(OfClass(ops, "main")) \o Ids(OfClass(ops, "log"))
+NonLog(ops) == Ids(OfClass(ops, "urgent")) \o Ids(OfClass(ops, "system")) \o Ids(OfClass(ops, "main"))
+Phase(ops, p) == SelectSeq(ops, LAMBDA o : o.ph = p)
+\* without the second hold everything is queued before the release: class by class
+Plain(ops) == NonLog(ops) \o Ids(OfClass(ops, "log"))
+\* with the second hold the receiver is parked inside the handler of its FIRST log message while phase 2 arrives:
+\* a log message is handled one at a time, and after each one the higher classes are looked at again
+Held(ops) ==
+  LET logs == Ids(OfClass(Phase(ops, 1), "log")) \o Ids(OfClass(Phase(ops, 2), "log")) IN
+  IF logs = <<>> THEN Plain(ops)
+  ELSE NonLog(Phase(ops, 1)) \o <<Head(logs)>> \o NonLog(Phase(ops, 2)) \o Tail(logs)
+Expected(e) == IF e.holdlog THEN Held(e.ops) ELSE Plain(e.ops)
 SeqSet(s) == {s[i] : i \in 1..Len(s)}
 
 LineBad(e) ==
-  LET exp == Expected(e.ops) IN
+  LET exp == Expected(e) IN
   IF "ExactlyOnce" \in Checks /\ (SeqSet(e.handled) # SeqSet(exp) \/ Len(e.handled) # Len(exp)) THEN "ExactlyOnce"
   ELSE IF "NoLostWakeup" \in Checks /\ (e.st # "sleep" \/ e.qlen # 0) THEN "NoLostWakeup"
   ELSE IF "Order" \in Checks /\ e.handled # exp THEN "Order"
